@@ -318,7 +318,13 @@ class AliasAnalysis:
             # shallow copy: the elements are shared
             return {FRESH}
         if d in ALIAS_FUNCS and call.args:
-            return self.origins(call.args[0], f, depth + 1)
+            a0 = call.args[0]
+            if d.startswith("scipy.sparse.") and isinstance(a0, ast.Tuple):
+                # coo_array((data, (row, col))) may share the data buffer; coo_array((n, m)) is an empty matrix of that shape
+                if len(a0.elts) == 2 and isinstance(a0.elts[1], ast.Tuple):
+                    return self.origins(a0.elts[0], f, depth + 1)
+                return {FRESH}
+            return self.origins(a0, f, depth + 1)
         if isinstance(fn, ast.Attribute):
             if fn.attr in FRESH_METHODS and not self.by_name.get(fn.attr):
                 return {FRESH}
